@@ -131,6 +131,8 @@ func runC01(c *Ctx) {
 			why = fmt.Sprintf("the Length field written is not header length + Data.Len() (uses Len:%v header:%v padding:%v): the decoder, which takes data[hdr:Length] as payload, reads a different payload than was written", hasLen, hasHdr, hasPad)
 		}
 		r.Check(good, "R3", key, c.fpos(aw), "Length = headerLen + Data.Len(), no padding term", why)
+		// the padding bytes themselves are zero on both sides (re-serialising a read message must give the same bytes)
+		c.paddingZeroed(aw, "R3")
 	}
 
 	// ---- R4 ----
@@ -398,6 +400,9 @@ func (c *Ctx) c01Pairing() {
 				for _, k := range tf.DecAdds {
 					has[k] = true
 				}
+				if tf.DecAddNarrow {
+					bad = append(bad, "the decoder's epoch arithmetic is performed in a 32-bit / unsigned type while Serialize works on int64 Unix times: values before 1970 do not read back as written")
+				}
 				if !has[-tf.SerAdd] || !has[4294967296-tf.SerAdd] {
 					bad = append(bad, fmt.Sprintf("epoch arithmetic is not inverse: Serialize adds %d, decoder uses %v (needs %d and %d)", tf.SerAdd, tf.DecAdds, -tf.SerAdd, 4294967296-tf.SerAdd))
 				}
@@ -549,6 +554,8 @@ func (c *Ctx) c01Opaque(ar *ssa.Function) {
 		})
 	}
 	r.Check(found, "R6", "dict.FindAVPWithVendor:unknown-placeholder", c.fpos(f), "the not-found exit returns the Unknown placeholder AVP", "an AVP code unknown to the dictionary does not yield the opaque placeholder: such AVPs cannot be carried through a round trip")
+	// no vendor-blind or code-only fallback: an AVP of a vendor the dictionary does not know must stay opaque
+	c.dictLookupKeys("R6")
 	// Unknown decodes as identity
 	ents, _ := c.globalMapLiteral("diam/datatype", "Decoder")
 	okId := false
